@@ -64,6 +64,10 @@ Call(t, op, k) ==
   /\ op \in {"add", "update", "commit", "search", "close"}
   /\ (op \in {"commit", "search", "close"}) => k = "none"
   /\ (op \in {"add", "update"}) => k \in Keys
+  \* key discipline (C07): add_document only for a key no live document carries, and not while another call on
+  \* that key is in progress (what update_document does to several documents with one "unique" value is not specified)
+  /\ op = "add" => WithKey(model, k) = {} /\ \A u \in Threads \ {t} : th[u].k # k
+  /\ op = "update" => \A u \in Threads \ {t} : ~(th[u].op = "add" /\ th[u].k = k)
   /\ op = "close" => \A u \in Threads \ {t} : th[u].pc = "idle"     \* the owner closes when the others are done
   /\ \A u \in Threads : th[u].op # "close"                          \* ... and nobody calls the object after that
   /\ th' = [th EXCEPT ![t] = [TInit EXCEPT !.pc = CASE op = "add" -> "add0" [] op = "update" -> "upd0"
